@@ -119,6 +119,9 @@ fn decorations(n: &str) -> Vec<(&'static str, E)> {
         ("neg-field", E::Neg(1, Box::new(E::Field(Box::new(v()), "f".into())))),
         ("not-index", E::Not(1, Box::new(E::Index(Box::new(v()), Box::new(E::Lit(V::Int(0))))))),
         ("neg-method", E::Neg(1, Box::new(method(v(), "m", vec![])))),
+        // rendered as `.5` (see flat_tokens): a literal that starts with a dot, next to `?` `:` `-` `<` ...
+        ("dot-float", E::Lit(V::F(0.5))),
+        ("float", E::Lit(V::F(1.5))),
     ]
 }
 
@@ -126,7 +129,7 @@ fn flat_tokens(toks: &[Tok]) -> Vec<String> {
     let mut out = Vec::new();
     for t in toks {
         match t {
-            Tok::Atom(e) => out.extend(tokens_of(e, Parens::Minimal, None)),
+            Tok::Atom(e) => out.extend(tokens_of(e, Parens::Minimal, None).into_iter().map(|t| if t == "0.5" { ".5".to_string() } else { t })),
             Tok::Op(op) => out.push(op.sym().to_string()),
             Tok::Q => out.push("?".into()),
             Tok::Colon => out.push(":".into()),
@@ -198,13 +201,24 @@ fn check_flat(toks: &[Tok], sub: &str, class: &str, acc: &mut Acc) -> Vec<Failur
     let tight = join_tokens(&src_tokens, Space::Tight, None);
     if tight != src {
         acc.eval_only(sub, 1);
-        if let Ok(got) = parse_shape(&tight) {
-            if got != want && out.is_empty() {
-                out.push(Failure::new(
-                    format!("c02:flat:{}:whitespace-changes-tree", class),
-                    format!("{:?} parsed as {} but {:?} as {}", tight, got.show(), src, want.show()),
-                    json!({"kind": "source", "source": tight, "expected_tree": want.show(), "actual_tree": got.show()}),
-                ));
+        match parse_shape(&tight) {
+            Ok(got) => {
+                if got != want && out.is_empty() {
+                    out.push(Failure::new(
+                        format!("c02:flat:{}:whitespace-changes-tree", class),
+                        format!("{:?} parsed as {} but {:?} as {}", tight, got.show(), src, want.show()),
+                        json!({"kind": "source", "source": tight, "expected_tree": want.show(), "actual_tree": got.show()}),
+                    ));
+                }
+            }
+            Err(e) => {
+                if out.is_empty() {
+                    out.push(Failure::new(
+                        format!("c02:flat:{}:whitespace-changes-acceptance", class),
+                        format!("{:?} was rejected ({}) although {:?}, which differs only in white space between tokens, parses as {}", tight, e, src, want.show()),
+                        json!({"kind": "source", "source": tight, "expected_tree": want.show(), "actual_tree": e}),
+                    ));
+                }
             }
         }
     }
@@ -642,7 +656,7 @@ fn run(opts: &Opts, acc: &mut Acc) {
             a.fail(f);
         }
     });
-    acc.mark_exhaustive("flat1", "14 operators x 13^2 operand decorations");
+    acc.mark_exhaustive("flat1", "14 operators x 15^2 operand decorations");
 
     let mut seqs: Vec<Vec<Tok>> = Vec::new();
     let dec2: Vec<usize> = if opts.tier == Tier::Thorough {
@@ -650,7 +664,7 @@ fn run(opts: &Opts, acc: &mut Acc) {
     } else {
         // quick: all decorations in the middle position (where both neighbours compete for
         // it), ident / neg / field / call at the ends
-        vec![0, 4, 6, 8]
+        vec![0, 4, 6, 8, 13]
     };
     for &o1 in ALL_OPS {
         for &o2 in ALL_OPS {
@@ -676,7 +690,7 @@ fn run(opts: &Opts, acc: &mut Acc) {
     });
     acc.mark_exhaustive(
         "flat2",
-        "all 196 operator pairs x operand decorations (all 13 in the middle; 4 (quick) / 13 (thorough) at the ends)",
+        "all 196 operator pairs x operand decorations (all 15 in the middle; 5 (quick) / 15 (thorough) at the ends)",
     );
 
     // 3 operators: all triples, plain identifiers + one seeded decoration sample each
@@ -718,6 +732,9 @@ fn run(opts: &Opts, acc: &mut Acc) {
     for &o in ALL_OPS {
         slot.push(vec![Tok::Atom(var("a")), Tok::Op(o), Tok::Atom(var("b"))]);
     }
+    // a slot that starts with a dot-leading float literal (`c?.5:.5`)
+    slot.push(vec![Tok::Atom(E::Lit(V::F(0.5)))]);
+    slot.push(vec![Tok::Atom(E::Lit(V::F(0.5))), Tok::Op(Op::Sub), Tok::Atom(var("b"))]);
     let rename = |s: &Vec<Tok>, x: &str, y: &str| -> Vec<Tok> {
         s.iter()
             .map(|t| match t {
@@ -779,7 +796,7 @@ fn run(opts: &Opts, acc: &mut Acc) {
             a.fail(f);
         }
     });
-    acc.mark_exhaustive("ternary", "15^3 slot fillings of one ?:, else-nested chains, 196 operator pairs in each slot");
+    acc.mark_exhaustive("ternary", "17^3 slot fillings of one ?:, else-nested chains, 196 operator pairs in each slot");
 
     // random trees
     let n = opts.tier.pick(150_000, 2_000_000);
